@@ -40,7 +40,7 @@ PROPS = {
  "C03": {
   "module": "Zog.Props.C03",
   "theorems": COMMON + [P + "C03." + t for t in ["bool_table", "int_from_string", "string_is_display", "time_table", "slice_table", "slice_length_preserved", "set_leaves_other_fields", "ptr_nil_stays_nil", "coercer_selected", "clean_parse_is_placed", "placed_leaf_present", "placed_leaf_absent", "placed_slice", "placed_ptr_absent", "placed_ptr_present", "placed_struct_frame"]] + ["Zog.Spec.placed_of_clean", "Zog.Spec.destLoop_get_own", "Zog.Spec.sliceLoop_dest"],
-  "streams": [st("coerce", 1500, 200000), eng(2000, 100000), eng(2500, 100000, "prepop"), eng(2000, 100000, "api")],
+  "streams": [st("coerce", 1500, 200000), eng(2000, 100000), eng(2500, 100000, "prepop"), eng(2000, 100000, "api"), eng(2500, 100000, "nearsuccess")],
   "trusted_base": ENGINE_TB + ["external, supplied per case by the harness from the standard library directly: strconv.ParseFloat, time.Parse, fmt %v"],
   "assumptions": ENGINE_ASSUME,
  },
